@@ -264,8 +264,12 @@ def merge_dicts(dicts: list[T]) -> T:
         return dicts[0]
 
     elif any(not isinstance(dct, dict) for dct in dicts):
-        # For non-dicts, last value takes precedence.
-        return dicts[-1]
+        # A non-dict value replaces everything before it. Dicts that come after the last
+        # non-dict are still merged with each other, as if the values were merged one by one.
+        last_non_dict = max(i for i, dct in enumerate(dicts) if not isinstance(dct, dict))
+        if last_non_dict == len(dicts) - 1:
+            return dicts[-1]
+        return merge_dicts(dicts[last_non_dict + 1 :])
 
     else:
         # Group by keys.
